@@ -399,6 +399,31 @@ def classify_expected(prog, outs, naming_names):
     return {"clash": clash, "input_names": set(by_name)}
 
 
+def _merged_reserved(outs, user_names):
+    """a failure with reserved-pattern user names counts as a rejection -
+    unless pytato itself produced a kernel in which such a name is ALSO a
+    generated variable (temporary, loop variable, second argument): that is
+    the silent merge the property excludes, whatever loopy or the C compiler
+    make of it afterwards"""
+    import pytato as pt
+    from pvf.cexec import c_target
+    try:
+        bp = pt.generate_loopy(outs, target=c_target())
+        knl = bp.program.default_entrypoint
+    except Exception:  # noqa: BLE001
+        return None
+    args = [a.name for a in knl.args]
+    gen = set(knl.temporary_variables) | set(knl.all_inames())
+    merged = sorted({n for n in user_names if RESERVED_RE.match(n)
+                     and (args.count(n) > 1 or n in gen)})
+    if merged:
+        return Failure("reserved-name-merged",
+                       f"user name(s) {merged} of the reserved pattern are "
+                       "also generated variables of the kernel pytato "
+                       "returned", "merged")
+    return None
+
+
 def variant_oracle(spec_r, plain_ok, *, mode="adv"):
     """-> (Failure|None, info)"""
     import pytato as pt
@@ -440,6 +465,9 @@ def variant_oracle(spec_r, plain_ok, *, mode="adv"):
         knl = generate_and_compile(outs)
     except HarnessError:
         if has_reserved:
+            f = _merged_reserved(outs, user_names)
+            if f is not None:
+                return f, info
             info["rejected"] = "reserved-pattern name (C compiler)"
             return None, info
         raise
@@ -486,6 +514,9 @@ def variant_oracle(spec_r, plain_ok, *, mode="adv"):
             info["rejected"] = "output key equals an input name"
             return None, info
         if has_reserved:
+            f = _merged_reserved(outs, user_names)
+            if f is not None:
+                return f, info
             info["rejected"] = "reserved-pattern name"
             return None, info
         if not plain_ok():
@@ -692,6 +723,17 @@ def run_shard(shard: int, nshards: int, seed: int, tier: str) -> ShardResult:
     hyp_run(st.tuples(progen.programs(cfg), st.data()), body, seed,
             pl["examples"])
 
+    # names the code generator derives from others (reduction inames and
+    # their bound temporaries, loop variables of stores), given to an input
+    # of a program that has a CSR product and a plain reduction
+    for j, case in enumerate(derived_name_gadgets()):
+        if j % nshards != shard:
+            continue
+        res.evaluations += 1
+        res.count("derived_name_gadget")
+        f, info = case_oracle(case)
+        tally(case, f, info, {"-", "--"})
+
     from pvf.props import c16
 
     def sym_body(x):
@@ -723,6 +765,35 @@ def run_shard(shard: int, nshards: int, seed: int, tier: str) -> ShardResult:
     hyp_run(st.tuples(c16.sym_programs(), st.data()), sym_body, seed + 7,
             pl["sym"])
     return res
+
+
+DERIVED = ("_pt_sum_r0_ubound", "_pt_sum_r0_lbound", "_pt_sum_r0",
+           "_pt_sum_r0_0", "_pt_sum_r1_ubound", "_pt_temp", "_pt_temp_0",
+           "_pt_temp_dim0", "out0_dim0", "out1_dim0", "_pt_data", "_pt_data_0",
+           "_pt_temp_store", "out0_store", "acc__pt_sum_r0")
+
+
+def derived_name_gadgets():
+    def spec(name_x, name_ev):
+        nodes = [
+            {"op": "placeholder", "p": {"name": name_x, "dtype": "float64",
+                                        "shape": [3], "scale": 0,
+                                        "values": [1, -2, 4]}},
+            {"op": "placeholder", "p": {"name": name_ev, "dtype": "float64",
+                                        "shape": [4], "scale": 0,
+                                        "values": [2, 3, 5, 7]}},
+            {"op": "data", "p": {"shape": [4], "dtype": "int32",
+                                 "values": [0, 2, 1, 2], "scale": 0}},
+            {"op": "data", "p": {"shape": [3], "dtype": "int32",
+                                 "values": [0, 2, 4], "scale": 0}},
+            {"op": "csr_matmul", "args": [["n", 1], ["n", 2], ["n", 3],
+                                          ["n", 0]], "p": {"shape": [2, 3]}},
+            {"op": "sum", "args": [["n", 1]], "p": {"axis": None}}]
+        return {"nodes": nodes, "outputs": [["out0", 4], ["out1", 5]]}
+    naming = {"in": {}, "data": {}, "out": {}, "tags": {}, "mode": "reserved"}
+    for nm in DERIVED:
+        yield {"spec": spec(nm, "ev"), "naming": naming}
+        yield {"spec": spec("x", nm), "naming": naming}
 
 
 def replay(case) -> Failure | None:
